@@ -3,6 +3,11 @@ open BsVerif.Dap
 #print axioms C12_one_response_step
 #print axioms C12_one_response_from
 #print axioms C12_one_response
+#print axioms C12_cancel_records
+#print axioms C12_cancelled_request_answered
+#print axioms C12_thread_refresh_exact
+#print axioms C12_thread_events_partial
+#print axioms C12_thread_events_counterexample
 #print axioms C12_seq_is_wire_order
 #print axioms C12_seq_distinct_all_interleavings
 #print axioms C12_lifecycle_monitor
